@@ -11,7 +11,7 @@ import (
 func init() {
 	register(&Check{
 		ID: "C02", Level: "exploration", QuickSecs: 150, ThoroughSecs: 1500,
-		Rule:        "skeletons over {'a',[ab],.,\"é\",&{},!{},#{}} x {?,*,+,&,!} x seq/choice up to N nodes (quick 4, thorough 5) wrapped in a rule-level action; every placement of <=2 labels on sub-expressions; every block receives the labels of its scope; every true/false script of the code predicates; inputs over {a,b,\\n,é} up to L=3; the complete ordered log of block invocations (id, kind, line:col:offset, text, label values), also on abandoned alternatives, and the parse result are compared with the reference interpreter; with Memoize each observed invocation must be one the reference also makes. Non-trivial = at least two block invocations of which one on a later-abandoned path or after a backtrack.",
+		Rule:        "skeletons over {'a',[ab],.,\"é\",&{},!{},#{}} x {?,*,+,&,!} x seq/choice up to N nodes (quick 4, thorough 5) wrapped in a rule-level action; every placement of <=2 labels on sub-expressions; every block receives the labels of its scope; every true/false script of the code predicates; inputs over {a,b,\\n,é} up to L=3; the complete ordered log of block invocations (id, kind, line:col:offset, text, label values), also on abandoned alternatives, and the parse result are compared with the reference interpreter; with Memoize each observed invocation must be one the reference also makes; plus a family generated with -optimize-grammar in which a labelled leaf rule is inlined next to equally named labels. Non-trivial = at least two block invocations of which one on a later-abandoned path or after a backtrack.",
 		Assumptions: []string{"E1 loader", "which labels a block receives is C04's concern; here the values bound to them are checked"},
 		Run:         runC02,
 	})
@@ -111,6 +111,15 @@ func runC02(c *ShardCtx) {
 	en := peg.NewEnumerator(peg.Alphabet{Leaves: leaves, Unary: allUnary, Seq: true, Choice: true, MaxArity: 3})
 	inputs := peg.Inputs([]string{"a", "b", "\n", "é"}, 3)
 	idx := 0
+	// labels across -optimize-grammar: a labelled leaf rule inlined next to equally named labels
+	// of the enclosing rule must still see its own values (action invocations vs reference)
+	for _, g := range sameNameLabelFamily() {
+		idx++
+		if !c.Mine(idx) {
+			continue
+		}
+		optGrammarVsReference(c, g, []core.Gen{{OptGrammar: true}, {OptGrammar: true, Optimize: true}}, peg.Inputs([]string{"a", "b", "c"}, 3), "-optimize-grammar")
+	}
 	for size := 1; size <= n; size++ {
 		for _, body := range en.Size(size) {
 			for _, lab := range labelings(body, 2) {
